@@ -289,3 +289,28 @@ Proof.
   intros e p He Hp. rewrite forallb_forall in H. specialize (H e He). rewrite forallb_forall in H.
   apply lkind_eqb_eq. now apply H.
 Qed.
+
+(* ---------- what "breakeven price" means ---------- *)
+(* Standard model, electricity: selling every year's energy at the levelized cost recovers, in present value at the
+   discount rate, exactly the inflated capital cost plus the discounted O&M. *)
+Lemma geo0_map_scale q k : forall l, geo0 q (map (fun e => e * k) l) == k * geo0 q l.
+Proof. induction l as [|x l IH]; simpl; [ring|]. rewrite IH. ring. Qed.
+
+Theorem breakeven_std_electricity c : l_econ c = 2%Z -> classify (l_enduse c) (l_plant c) = LElec ->
+  ~ geo0 (/ (1 + l_disc c)) (l_net c) == 0 ->
+  let price_usd_per_kwh := fst (fst (lcoe_spec c)) / 100 in
+  geo0 (/ (1 + l_disc c)) (map (fun e => e * (price_usd_per_kwh / 1000000)) (l_net c))
+  == (1 + l_inflc c) * l_ccap c + geo0 (/ (1 + l_disc c)) (repeat (l_coam c) (l_life c)).
+Proof.
+  intros He Hk Hden. cbv zeta. rewrite (spec_std_electricity c He Hk). cbn [fst].
+  rewrite geo0_map_scale. unfold e8. field. exact Hden.
+Qed.
+
+(* Fixed charge rate model: average yearly revenue at the levelized cost = annualised capital + O&M *)
+Theorem breakeven_fcr_electricity c : l_econ c = 1%Z -> classify (l_enduse c) (l_plant c) = LElec ->
+  ~ sumQ (l_net c) == 0 -> ~ natQ (length (l_net c)) == 0 ->
+  let price_usd_per_kwh := fst (fst (lcoe_spec c)) / 100 in
+  avg (l_net c) * (price_usd_per_kwh / 1000000) == l_fcr c * (1 + l_inflc c) * l_ccap c + l_coam c.
+Proof.
+  intros He Hk Hs Hn. cbv zeta. rewrite (spec_fcr_electricity c He Hk). cbn [fst]. unfold avg, e8. field. split; assumption.
+Qed.
